@@ -57,7 +57,7 @@ def run(ctx):
         try:
             exe = lib.build_driver("c02_projdata")
             t1 = os.path.join(ctx.work, "rand.ndjson")
-            rc1, o1 = lib.run_driver(exe, ["rand", t1, 96 if q else 800, 110 if q else 260, scratch], env=env, timeout=900, allow_fail=True)
+            rc1, o1 = lib.run_driver(exe, ["rand", t1, 96 if q else 520, 110 if q else 260, scratch], env=env, timeout=900, allow_fail=True)
             t2 = os.path.join(ctx.work, "exh.ndjson")
             rc2, o2 = lib.run_driver(exe, ["exh", t2, 2 if q else 1000, scratch], env=env, timeout=900, allow_fail=True)
             traces = [t for t in (t1, t2) if os.path.exists(t) and os.path.getsize(t) > 0]
@@ -73,7 +73,7 @@ def run(ctx):
                 e2 = dict(env)
                 e2["C02_NO_OORSEG"] = "1"
                 e2["VERIF_SEED"] = str(ctx.seed + 1000)
-                rc, out = lib.run_driver(exs, ["rand", san_trace, 160, 120, scratch], env=e2, timeout=900, allow_fail=True)
+                rc, out = lib.run_driver(exs, ["rand", san_trace, 120, 120, scratch], env=e2, timeout=900, allow_fail=True)
                 if rc not in (0, 77, 78):
                     raise lib.ModelFailure("sanitized driver failed rc=%d\n%s" % (rc, out[-2000:]))
                 if rc != 0:
